@@ -241,7 +241,7 @@ class Built:
     def query(self, order=None):
         case = self.case
         with symbolic_mode():
-            self.declare_vars(order)
+            self.declare_vars(order or case.get('decl_order'))
             self.sel = [self.term(t) for t in case['sel']]
             conds = [self.cond(c) for c in (case.get('cond') or [])]
             if case.get('entity', len(self.sel) == 1):
@@ -250,6 +250,66 @@ class Built:
                 desc = set_of(self.sel, *conds)
             self.q = the(desc) if case['quant'] == 'the' else an(desc)
         return self.q
+
+    # -- the constructed tree, in the notation of the driver's showCond ---------------------------
+    def show_term(self, e):
+        from entity_query_language.symbolic import (Variable as Var, Literal, Attribute, Index, Call, Flatten)
+        if isinstance(e, Literal):
+            data = list(e._domain_source_.domain)
+            return f"(lit {self.render(data[0])})"
+        if isinstance(e, Var):
+            for vid, v in self.vars.items():
+                if v is e:
+                    return f"(var {vid})"
+            return f"(var ?{e._name__})"
+        if isinstance(e, Call):
+            recv = e._child_
+            args = ' '.join(self.render(a) for a in e._args_)
+            return f"(call {recv._attr_name_} ({args}) {self.show_term(recv._child_)})"
+        if isinstance(e, Attribute):
+            return f"(attr {e._attr_name_} {self.show_term(e._child_)})"
+        if isinstance(e, Index):
+            return f"(idx {self.render(e._key_)} {self.show_term(e._child_)})"
+        if isinstance(e, Flatten):
+            for fid, f in self.flats.items():
+                if f is e:
+                    return f"(flat {fid} {self.show_term(e._child_)})"
+            return f"(flat ? {self.show_term(e._child_)})"
+        return f"(?term {type(e).__name__})"
+
+    def render(self, x):
+        from .surface import render_val
+        return render_val(self.encode(x))
+
+    def show_cond(self, e):
+        from entity_query_language.symbolic import (Variable as Var, Literal, Comparator, AND, ElseIf, Union,
+                                                    DomainMapping, ResultQuantifier, QueryObjectDescriptor)
+        if isinstance(e, Comparator):
+            return f"(cmp {e.operation.__name__} {self.show_term(e.left)} {self.show_term(e.right)})"
+        if isinstance(e, AND):
+            return f"(AND {self.show_cond(e.left)} {self.show_cond(e.right)})"
+        if isinstance(e, ElseIf):
+            return f"({type(e).__name__} {self.show_cond(e.left)} {self.show_cond(e.right)})"
+        if isinstance(e, Union):
+            return f"({type(e).__name__} {self.show_cond(e.left)} {self.show_cond(e.right)})"
+        if isinstance(e, DomainMapping):
+            return f"(truth {1 if e._invert_ else 0} {self.show_term(e)})"
+        if isinstance(e, Var) and e._predicate_type_ is not None and not isinstance(e, Literal):
+            name = e._name__[2:] if e._name__.startswith('P_') else e._name__
+            args = ' '.join(self.show_term(v) for v in e._child_vars_.values())
+            return f"(pred {1 if e._invert_ else 0} {name} {args})"
+        if isinstance(e, ResultQuantifier):
+            d = e._child_
+            sel = ' '.join(self.show_term(v) for v in d.selected_variables)
+            return f"(sub ({sel}) {self.show_cond(d._child_)})"
+        if isinstance(e, QueryObjectDescriptor):
+            sel = ' '.join(self.show_term(v) for v in e.selected_variables)
+            return f"(sub ({sel}) {self.show_cond(e._child_)})"
+        return f"(?cond {type(e).__name__})"
+
+    def show_tree(self):
+        d = self.q._child_
+        return self.show_cond(d._child_) if d._child_ is not None else '-'
 
     def row(self, r):
         if self.case.get('entity', len(self.sel) == 1):
@@ -275,7 +335,7 @@ def reset_library_state():
     Variable._cache_.clear()
 
 
-def run_case(case, caching=True, evaluations=1):
+def run_case(case, caching=True, evaluations=1, tree_out=None):
     """Build the case on the implementation and evaluate it; returns a list of outcomes."""
     reset_library_state()
     (enable_caching if caching else disable_caching)()
@@ -283,6 +343,11 @@ def run_case(case, caching=True, evaluations=1):
         b = Built(case)
         b.query()
         outs = []
+        if tree_out is not None:
+            try:
+                tree_out.append(b.show_tree())
+            except Exception as e:
+                tree_out.append(f'(?tree {type(e).__name__}: {e})')
         for _ in range(evaluations):
             if case['quant'] == 'the':
                 outs.append(b.run_the())
